@@ -185,6 +185,8 @@ func checkC05(c *Ctx) {
 	c.rule("C05.c", "every store to Conn.state follows the success of its enabling event and is an RFC 9051 transition", 10)
 	c.rule("C05.d", "readCommand is not reached in Logout; unknown command before authentication sets Logout and sends BYE", 3)
 	c.rule("C05.e", "every command label has exactly one handler, every handler is dispatched", 36)
+	c.rule("C05.f", "direct tests of the connection state treat Selected as a sub-state of Authenticated", 3)
+	ruleSelectedIsAuthenticated(c, "C05.f")
 	c.assume("a backend cannot write Conn.state (unexported field; checked: all stores are in package imapserver)")
 	c.assume("the IDLE goroutine's session call is judged with the state at spawn time")
 
